@@ -16,7 +16,7 @@ def sh(cmd, cwd=None, **kw):
 subprocess.run('git -C /repo worktree remove --force %s 2>/dev/null' % wt, shell=True)
 rc, out = sh('git -C /repo worktree add -q --detach %s HEAD' % wt)
 assert rc == 0, out
-meta = dict(property=pid, seed=k)
+meta = dict(property=pid, seed=os.environ.get('SEED_DST', k))
 try:
     patch = os.path.abspath(os.path.join(src, 'patch.diff'))
     demo = os.path.abspath(os.path.join(src, 'demo.py'))
@@ -44,6 +44,9 @@ finally:
     subprocess.run('git -C /repo worktree remove --force %s' % wt, shell=True)
 # run the checks against /repo with the change applied
 res = {}
+# the evidence files must come from runs on the unchanged tree: keep them aside while the change is applied
+evbak = '/var/tmp/evidence.keep.%d' % os.getpid()
+shutil.copytree(os.path.join(ROOT, 'evidence'), evbak)
 rc, out = sh('git -C /repo apply %s' % patch)
 assert rc == 0, out
 try:
@@ -59,13 +62,15 @@ try:
                 break
 finally:
     sh('git -C /repo checkout -- .')
+    shutil.rmtree(os.path.join(ROOT, 'evidence'))
+    shutil.move(evbak, os.path.join(ROOT, 'evidence'))
 meta['checks'] = res
 meta['caught_by'] = [c for c, r in res.items() if r['exit'] == 1]
 notes = open(os.path.join(src, 'notes.md')).read() if os.path.exists(os.path.join(src, 'notes.md')) else ''
 meta['needs'] = notes.strip()[:1500]
 meta['ran'] = ['git worktree add (scratch) ; demo on clean tree ; git apply patch.diff ; pytest -q ; demo with change ; worktree removed',
                'git -C /repo apply patch.diff ; ./check <id> --tier quick for ids %s ; git -C /repo checkout -- .' % checks]
-dst = '%s/seeded/%s-%s' % (ROOT, pid, k)
+dst = '%s/seeded/%s-%s' % (ROOT, pid, os.environ.get('SEED_DST', k))
 os.makedirs(dst, exist_ok=True)
 for f in ('patch.diff', 'demo.py', 'notes.md'):
     if os.path.exists(os.path.join(src, f)):
